@@ -387,6 +387,7 @@ def s0_known():
     yield 'known/F6', en('E', [variant('A', 'Unnamed', [], disc=(['3'], 3)), variant('B', 'Unit', [], [sub('incomparable')]), variant('C')], [repr_attr('u8'), dw(['PartialOrd', 'Clone', 'PartialEq'])])
     yield 'known/F8', st('S', named(1, [['::', 'core', '::', 'marker', '::', 'PhantomData', '<', '__H', '>']]), [dw(['Hash'])], gen=generics([tparam('__H')]))
     yield 'known/F9', st('S', unnamed(1, [['T']]), [dw(['PartialEq'])], 'Unnamed')
+    yield 'known/F11', st('S', named(2, [['T'], ['U']]), [dw(['Zeroize', 'ZeroizeOnDrop'], ['T'])], gen=generics([tparam('T'), tparam('U')]))
     # fixed: F1 raw type / variant names in Debug, F10 field-less braced item with skip_inner(Debug)
     yield 'known/F1', en('r#type', [variant('r#fn', 'Unnamed', unnamed(1, [['T']])), variant('r#match', 'Named', named(1, [['T']])), variant('r#loop')], [dw(['Debug'])])
     yield 'known/F1s', st('r#struct', unnamed(1, [['T']]), [dw(['Debug'])], 'Unnamed')
